@@ -404,8 +404,26 @@ func cmdCheck(args []string) int {
 	}
 	// locked obligations that vanished
 	var vanished, vanishedSafety []string
+	// per-array frame obligations are named after the heap arrays the function may write; when a change makes the
+	// function touch other arrays (a local map gets another key type, a call is added), some of these names disappear
+	// and others appear. The clause they belong to is still decided as long as the family (same clause, any array) is
+	// generated and entirely discharged.
+	famOK := map[string]bool{}
+	for _, o := range all {
+		if m := frameOblRe.FindStringSubmatch(o.Name()); m != nil {
+			if v, seen := famOK[m[1]]; !seen {
+				famOK[m[1]] = o.Verdict == "discharged"
+			} else {
+				famOK[m[1]] = v && o.Verdict == "discharged"
+			}
+		}
+	}
 	for name := range locked {
 		if _, ok := byName[name]; !ok {
+			if m := frameOblRe.FindStringSubmatch(name); m != nil && famOK[m[1]] {
+				vanishedSafety = append(vanishedSafety, name)
+				continue
+			}
 			if strings.Contains(name, "#safe-") {
 				// safety obligations disappear when the guarded operation disappears: reported, not an alarm
 				vanishedSafety = append(vanishedSafety, name)
@@ -519,6 +537,9 @@ func minInt(a, b int) int {
 	}
 	return b
 }
+
+// frameOblRe: obligation names that end in a heap array name (one obligation per array of a frame clause)
+var frameOblRe = regexp.MustCompile(`^(.*[:/])(?:F_|C_|M_)[^/~]*(?:~\d+)?$`)
 
 func violationLine(prop, path string, o *Obligation, fc *FnCtx, verif string) string {
 	suffix := ""
